@@ -227,17 +227,29 @@ inductive Adv where
   | panic
   deriving Repr, Inhabited
 
+/-- an optional predicate holds (`None` = no filter) -/
+def predOk (p : Option Pred) (e : Ev) (cap : Cap) : Bool :=
+  match p with | some p => evalPred p e cap | none => true
+
+/-- the state's expected event type, if any, is the event's type -/
+def tyOk (t : Option Nat) (e : Ev) : Bool :=
+  match t with | some t => e.ty == t | none => true
+
 /-- `event_matches_state` -/
-def matchesState (st : State) (e : Ev) (cap : Cap) : Bool :=
-  (match st.evTy with | some t => e.ty == t | none => true) &&
-  (match st.pred with | some p => evalPred p e cap | none => true)
+def matchesState (st : State) (e : Ev) (cap : Cap) : Bool := tyOk st.evTy e && predOk st.pred e cap
 
 /-- `evaluate_deferred_predicate`: every consecutive pair `(prev, cur)` must satisfy the predicate on `cur`
-with `prev` bound to the alias returned by `extract_ref_alias` -/
-def evalDeferred (p : Pred) (cap : Cap) : List Ev → Bool
+with `prev` bound to the alias `al` -/
+def evalDeferred (p : Pred) (al : Option Nat) (cap : Cap) : List Ev → Bool
   | prev :: cur :: rest =>
-      evalPred p cur (cap.setOpt (extractRefAlias p) prev) && evalDeferred p cap (cur :: rest)
+      evalPred p cur (cap.setOpt al prev) && evalDeferred p al cap (cur :: rest)
   | _ => true
+
+/-- the alias the previous event is bound to: the Kleene alias carried by the combination's entries
+(since the repair `fix: … Kleene alias …`; before it: `extract_ref_alias(pred)`, the first alias mentioned
+by the predicate, whichever it was) -/
+def deferredAlias (p : Pred) (entries : List Entry) : Option Nat :=
+  (entries.head?.bind (·.alias)).or (extractRefAlias p)
 
 /-- `StackEntry { event: self.events[idx], alias: self.aliases[idx] }` (`none` = index out of bounds = panic) -/
 def KCap.entry? (k : KCap) (i : Nat) : Option Entry :=
@@ -262,7 +274,7 @@ def enumLoop (r : Run) (k : KCap) (p : Pred) (maxResults : Nat) :
   | [], acc => acc
   | c :: cs, acc =>
       if c.2.isEmpty then enumLoop r k p maxResults cs acc
-      else if evalDeferred p r.captured (c.2.map (·.ev)) then
+      else if evalDeferred p (deferredAlias p c.2) r.captured (c.2.map (·.ev)) then
         let acc' := acc ++ [mkEnumMatch r k c]
         if acc'.length ≥ maxResults then acc' else enumLoop r k p maxResults cs acc'
       else enumLoop r k p maxResults cs acc
